@@ -111,7 +111,9 @@ def make_case(seed, index, tier):
             'scenario': {'producers': producers, 'consumers': consumers},
             'twins': rng.random() < 0.4, 'reused': rng.random() < 0.4,
             'nones': rng.random() < 0.25, 'early': rng.random() < 0.3,
-            'odd': rng.random() < 0.25}
+            'odd': rng.random() < 0.25,
+            # a clock that absorbs every delay of the scenario (one date, many batches)
+            'start': rng.choice([1.7e18, 2.0 ** 70]) if rng.random() < 0.05 and not burst else 0}
 
 
 class QueueChecker:
@@ -324,6 +326,7 @@ def build_for(case):
     scenario = case['scenario']
 
     def build(arena):
+        arena.start = case.get('start', 0)
         queue = Queue()
         wrap = Twin if case.get('twins') else odd if case.get('odd') else str
         if case.get('nones'):
